@@ -37,4 +37,5 @@ Definition oqra_ords_sync := OverflowQueueRA.oq_ords_sync.
 Definition oqra_content := OverflowQueueRA.qcontent.
 Definition oqra_push (v : N) := OverflowQueueRA.QPush v.
 Definition oqra_pop := OverflowQueueRA.QPop.
-Extraction "../ocaml/c03/model.ml" oqra_ords_sync oqra_content oqra_push oqra_pop oqra_step1 oqra_init oqra_mk_ords oqra_set_oracle oqra_race_used oqra_race_spec oqra_oracle oqra_conserving ra_step1 ra_init ra_mk_ords ra_ords_code ra_set_oracle ra_race ra_oracle ra_conserving spsc_step1 spsc_init spsc_content spsc_push spsc_ops oq_step1 oq_init oq_content oq_push oq_ops N.of_nat N.to_nat.
+Definition ra_content := SpscQueueRA.rcontent.
+Extraction "../ocaml/c03/model.ml" ra_content oqra_ords_sync oqra_content oqra_push oqra_pop oqra_step1 oqra_init oqra_mk_ords oqra_set_oracle oqra_race_used oqra_race_spec oqra_oracle oqra_conserving ra_step1 ra_init ra_mk_ords ra_ords_code ra_set_oracle ra_race ra_oracle ra_conserving spsc_step1 spsc_init spsc_content spsc_push spsc_ops oq_step1 oq_init oq_content oq_push oq_ops N.of_nat N.to_nat.
